@@ -38,6 +38,7 @@ func checkC04(w *World, r *Report) {
 	r.Explanation = "Decides the transport half of C04 for every byte string used as literal text: (R04.1) the parser passes a TEXT token's value to the text-node constructor unmodified, TextNode.Render and VerbatimNode.Render pass their content unmodified to the writer and make no other call, and no other function reads those content fields; (R04.2) the comment arm of the parser builds no node and calls no parser function, and CommentNode.Render writes nothing; (R04.3) parseVerbatim calls no other parser function, so nothing inside a verbatim body can become an evaluable node, and VerbatimNode.Render never touches its context; (R04.4) every path of the WriteString helper hands exactly its string argument to the writer; (R04.5) the content parseVerbatim stores is composed of TEXT token values only. NOT decided — and this is the larger half: that the byte offsets computed by the tokenizer partition the source (no byte dropped or duplicated next to a tag, the backslash-escape branch, the unsafe reads); those are arithmetic facts about strings.Index results and need value reasoning."
 	r.Explanation += " Rules added in later rounds: (R04.6) no store into Token.Value is a concatenation: a token's value stays one piece of source, so an escaped delimiter never fuses with its neighbours into a text node holding a complete {{ … }}. (R04.7) no word is substituted for a different word; (R04.8) Parse succeeds only behind the parser. (R04.9) Render returns the buffer's text; (R04.10) the scanner's source is the text given."
 	r.Explanation += " Round 9: (R04.11) a function that switches the tokenizer's source restores it before every return."
+	r.Explanation += " Round 11: (R04.12) loaders return the bytes of the file; (R04.13) Parse gets the source unchanged."
 	r.RuleText = "obligation = one transport step / one reader of a content field / one write into verbatim content; non-trivial = all"
 	r.Trusted = []string{"io.Writer implementations write the bytes they are given"}
 
